@@ -532,7 +532,17 @@ class Engine:
     def e_JoinedStr(self, node, st, fid):
         subs = [v.value for v in node.values if isinstance(v, ast.FormattedValue)]
         outs = self.eval_many(subs, st, fid)
-        return self.bind(outs, lambda s, vs: [("ok", s, VOpaque("fstring"))])
+
+        def mk(s, vs):
+            # hook "fstring"(eng, st, node, values of the formatted sub-expressions in order) may give the string a meaning
+            # (e.g. an identifier built by concatenation); without it an f-string is an opaque value (messages)
+            h = self.hooks.get("fstring")
+            if h:
+                r = h(self, s, node, vs)
+                if r is not None:
+                    return r
+            return [("ok", s, VOpaque("fstring"))]
+        return self.bind(outs, mk)
 
     def e_Tuple(self, node, st, fid):
         if any(isinstance(e, ast.Starred) for e in node.elts):
